@@ -58,9 +58,11 @@ enum MOp {
     Propose { to: u64, value: i128, p: Pl },
     Approve { id: i64, h: Hs },
     Cancel { id: i64, h: Hs },
-    AddSigner { a: u64, inc: bool },
-    RemoveSigner { a: u64, dec: bool },
-    SwapSigner { a: u64, b: u64 },
+    /// `key` / `akey` / `bkey`: the address argument is given as the account's public-key address
+    /// instead of its ID address (only meaningful when it names an existing account)
+    AddSigner { a: u64, inc: bool, #[serde(default)] key: bool },
+    RemoveSigner { a: u64, dec: bool, #[serde(default)] key: bool },
+    SwapSigner { a: u64, b: u64, #[serde(default)] akey: bool, #[serde(default)] bkey: bool },
     ChangeThreshold { n: u64 },
     LockBalance { start: i64, dur: i64, amt: i128 },
 }
@@ -78,6 +80,9 @@ struct MCase {
 // ---------- Gallina printing ----------
 fn n(x: u64) -> String {
     format!("{}%N", x)
+}
+fn ad(a: u64, k: bool) -> String {
+    format!("(mk_addr {} {})", n(a), cf::b(k))
 }
 fn coq_pl(p: &Pl) -> String {
     match p {
@@ -104,9 +109,9 @@ fn coq_op(o: &MOp) -> String {
         MOp::Propose { to, value, p } => format!("(Propose {} {} {})", n(*to), cf::z(value), coq_pl(p)),
         MOp::Approve { id, h } => format!("(Approve {} {})", cf::z(id), coq_hs(h)),
         MOp::Cancel { id, h } => format!("(Cancel {} {})", cf::z(id), coq_hs(h)),
-        MOp::AddSigner { a, inc } => format!("(AddSigner {} {})", n(*a), cf::b(*inc)),
-        MOp::RemoveSigner { a, dec } => format!("(RemoveSigner {} {})", n(*a), cf::b(*dec)),
-        MOp::SwapSigner { a, b } => format!("(SwapSigner {} {})", n(*a), n(*b)),
+        MOp::AddSigner { a, inc, key } => format!("(AddSigner {} {})", ad(*a, *key), cf::b(*inc)),
+        MOp::RemoveSigner { a, dec, key } => format!("(RemoveSigner {} {})", ad(*a, *key), cf::b(*dec)),
+        MOp::SwapSigner { a, b, akey, bkey } => format!("(SwapSigner {} {})", ad(*a, *akey), ad(*b, *bkey)),
         MOp::ChangeThreshold { n } => format!("(ChangeThreshold {})", cf::z(n)),
         MOp::LockBalance { start, dur, amt } => {
             format!("(LockBalance {} {} {})", cf::z(start), cf::z(dur), cf::z(amt))
@@ -179,9 +184,11 @@ fn enc_op(o: &MOp, out: &mut Vec<String>) {
             push(vec!["3".into(), cf::z(id)]);
             enc_hs(h, out);
         }
-        MOp::AddSigner { a, inc } => push(vec!["4".into(), cf::z(a), cf::z(*inc as u8)]),
-        MOp::RemoveSigner { a, dec } => push(vec!["5".into(), cf::z(a), cf::z(*dec as u8)]),
-        MOp::SwapSigner { a, b } => push(vec!["6".into(), cf::z(a), cf::z(b)]),
+        MOp::AddSigner { a, inc, key } => push(vec!["4".into(), cf::z(a), cf::z(*key as u8), cf::z(*inc as u8)]),
+        MOp::RemoveSigner { a, dec, key } => push(vec!["5".into(), cf::z(a), cf::z(*key as u8), cf::z(*dec as u8)]),
+        MOp::SwapSigner { a, b, akey, bkey } => {
+            push(vec!["6".into(), cf::z(a), cf::z(*akey as u8), cf::z(b), cf::z(*bkey as u8)])
+        }
         MOp::ChangeThreshold { n } => push(vec!["7".into(), cf::z(n)]),
         MOp::LockBalance { start, dur, amt } => {
             push(vec!["8".into(), cf::z(start), cf::z(dur), cf::z(amt)])
@@ -230,11 +237,28 @@ struct World {
     max_depth: usize,
     inner_failed: u64,
     reentrant: u64,
+    /// public-key address of every account (and the reverse map)
+    keys: HashMap<u64, Address>,
+    key_ids: HashMap<Address, u64>,
+    /// the monitor's OWN record of who approved what, in the order the approvals were given
+    /// (from the invocation traces; independent of the order the implementation stores)
+    chron: HashMap<(u64, i64), Vec<u64>>,
+    purges_multi: u64,
+    preapproved_exec: u64,
+    preapproved_refused: u64,
+    key_args: u64,
 }
 
 fn setup(n_accounts: u64) -> World {
     let v = new_world();
     let accts = fil_actors_integration_tests::util::create_accounts(&v, n_accounts, &TokenAmount::from_atto(1_000_000));
+    let mut keys = HashMap::new();
+    let mut key_ids = HashMap::new();
+    for a in &accts {
+        let k = get_state::<fil_actor_account::State>(&v, a).unwrap().address;
+        keys.insert(aid(a), k);
+        key_ids.insert(k, aid(a));
+    }
     World {
         v,
         accounts: accts.iter().map(aid).collect(),
@@ -244,6 +268,13 @@ fn setup(n_accounts: u64) -> World {
         max_depth: 0,
         inner_failed: 0,
         reentrant: 0,
+        keys,
+        key_ids,
+        chron: HashMap::new(),
+        purges_multi: 0,
+        preapproved_exec: 0,
+        preapproved_refused: 0,
+        key_args: 0,
     }
 }
 
@@ -294,6 +325,18 @@ fn ser<T: Serialize>(t: &T) -> RawBytes {
     RawBytes::serialize(t).unwrap()
 }
 impl World {
+    /// the address an argument is realised as: the account's key address when asked for (and it is an
+    /// account), the ID address otherwise
+    fn arg_addr(&self, a: u64, key: bool) -> Address {
+        match self.keys.get(&a) {
+            Some(k) if key => *k,
+            _ => Address::new_id(a),
+        }
+    }
+    /// the actor an address argument names
+    fn arg_id(&self, a: &Address) -> u64 {
+        a.id().ok().or_else(|| self.key_ids.get(a).cloned()).unwrap_or(u64::MAX)
+    }
     fn realize(&mut self, p: &Pl) -> (u64, RawBytes) {
         let (m, b) = match p {
             Pl::Send => (0, RawBytes::default()),
@@ -307,9 +350,11 @@ impl World {
                 }
                 MOp::Approve { id, h } => (3, ser(&TxnIDParams { id: TxnID(*id), proposal_hash: self.realize_hash(h) })),
                 MOp::Cancel { id, h } => (4, ser(&TxnIDParams { id: TxnID(*id), proposal_hash: self.realize_hash(h) })),
-                MOp::AddSigner { a, inc } => (5, ser(&AddSignerParams { signer: Address::new_id(*a), increase: *inc })),
-                MOp::RemoveSigner { a, dec } => (6, ser(&RemoveSignerParams { signer: Address::new_id(*a), decrease: *dec })),
-                MOp::SwapSigner { a, b } => (7, ser(&SwapSignerParams { from: Address::new_id(*a), to: Address::new_id(*b) })),
+                MOp::AddSigner { a, inc, key } => (5, ser(&AddSignerParams { signer: self.arg_addr(*a, *key), increase: *inc })),
+                MOp::RemoveSigner { a, dec, key } => (6, ser(&RemoveSignerParams { signer: self.arg_addr(*a, *key), decrease: *dec })),
+                MOp::SwapSigner { a, b, akey, bkey } => {
+                    (7, ser(&SwapSignerParams { from: self.arg_addr(*a, *akey), to: self.arg_addr(*b, *bkey) }))
+                }
                 MOp::ChangeThreshold { n } => (8, ser(&ChangeNumApprovalsThresholdParams { new_threshold: *n })),
                 MOp::LockBalance { start, dur, amt } => (
                     9,
@@ -539,11 +584,18 @@ fn monitor(w: &mut World, epoch: i64, s0: &Snap, post: &Snap, inst: &[Snap], tr:
         let wid = aid(&fr.to);
         let pre_all = if d == 0 { s0 } else { &inst[d - 1] };
         let Some(pre) = pre_all.wallets.get(&wid) else { continue };
+        let caller = fr.from;
+        let pbytes = params_of(fr);
+        if fr.method == 3 && fr.exit_code.value() == 19 {
+            if let Ok(tp) = fvm_ipld_encoding::from_slice::<TxnIDParams>(&pbytes) {
+                if pre.pending.get(&tp.id.0).map(|t| t.approved.len() as u64 >= pre.threshold).unwrap_or(false) {
+                    w.preapproved_refused += 1;
+                }
+            }
+        }
         if !fr.exit_code.is_success() {
             continue;
         }
-        let caller = fr.from;
-        let pbytes = params_of(fr);
         match fr.method {
             2 | 3 | 4 => {
                 if !pre.signers.contains(&caller) {
@@ -565,8 +617,58 @@ fn monitor(w: &mut World, epoch: i64, s0: &Snap, post: &Snap, inst: &[Snap], tr:
                         if t.approved.first() != Some(&caller) {
                             bad.push(Fail { class: "cancel", what: format!("wallet {} txn {} cancelled by {} but approvals are {:?}", wid, tp.id.0, caller, t.approved) });
                         }
+                        // the earliest REMAINING approver according to the monitor's own chronology
+                        if let Some(ch) = w.chron.get(&(wid, tp.id.0)) {
+                            let earliest = ch.iter().find(|a| t.approved.contains(a));
+                            if earliest.is_some() && earliest != Some(&caller) {
+                                bad.push(Fail {
+                                    class: "cancel",
+                                    what: format!("wallet {} txn {} cancelled by {} but its earliest remaining approver is {:?} (approvals were given in the order {:?})", wid, tp.id.0, caller, earliest, ch),
+                                });
+                            }
+                        }
                     }
                 }
+            }
+        }
+        // the monitor's chronology of approvals (every successful frame is committed: a multisig method
+        // never fails after its send)
+        if code == 0 {
+            match fr.method {
+                2 => {
+                    w.chron.insert((wid, pre.next_id), vec![caller]);
+                }
+                3 => {
+                    if let Ok(tp) = fvm_ipld_encoding::from_slice::<TxnIDParams>(&pbytes) {
+                        if let Some(t) = pre.pending.get(&tp.id.0) {
+                            let e = w.chron.entry((wid, tp.id.0)).or_insert_with(|| t.approved.clone());
+                            e.retain(|a| t.approved.contains(a));
+                            if !e.contains(&caller) {
+                                e.push(caller);
+                            }
+                            if d + 1 < chain.len() && t.approved.len() as u64 >= pre.threshold {
+                                w.preapproved_exec += 1;
+                            }
+                        }
+                    }
+                }
+                6 | 7 => {
+                    let gone = if fr.method == 6 {
+                        fvm_ipld_encoding::from_slice::<RemoveSignerParams>(&pbytes).ok().map(|p| p.signer)
+                    } else {
+                        fvm_ipld_encoding::from_slice::<SwapSignerParams>(&pbytes).ok().map(|p| p.from)
+                    };
+                    if let Some(g) = gone {
+                        if g.id().is_err() {
+                            w.key_args += 1;
+                        }
+                        let gid = w.arg_id(&g);
+                        if pre.pending.values().any(|t| t.approved.len() >= 3 && t.approved.contains(&gid) && t.approved.last() != Some(&gid)) {
+                            w.purges_multi += 1;
+                        }
+                    }
+                }
+                _ => {}
             }
         }
         // the send made by this frame, if any
@@ -666,6 +768,19 @@ fn monitor(w: &mut World, epoch: i64, s0: &Snap, post: &Snap, inst: &[Snap], tr:
             }
         }
     }
+    // the stored order of the remaining approvals must be the order in which they were given
+    w.chron.retain(|(wid, tid), _| post.wallets.get(wid).map(|b| b.pending.contains_key(tid)).unwrap_or(false));
+    for ((wid, tid), ch) in w.chron.iter_mut() {
+        let t = &post.wallets[wid].pending[tid];
+        ch.retain(|a| t.approved.contains(a));
+        if *ch != t.approved {
+            bad.push(Fail {
+                class: "approval-order",
+                what: format!("wallet {} txn {}: approvals stored as {:?} but given in the order {:?} (the first one may cancel)", wid, tid, t.approved, ch),
+            });
+            *ch = t.approved.clone();
+        }
+    }
     bad
 }
 
@@ -718,7 +833,7 @@ fn gen_config(r: &mut Prng, view: &View, x: u64) -> MOp {
                 0..=91 => *r.pick(&ws.signers),
                 _ => NOBODY,
             };
-            MOp::AddSigner { a, inc: r.chance(40) }
+            MOp::AddSigner { a, inc: r.chance(40), key: view.s.accounts.contains_key(&a) && r.chance(30) }
         }
         28..=52 => {
             let a = match r.below(100) {
@@ -726,7 +841,7 @@ fn gen_config(r: &mut Prng, view: &View, x: u64) -> MOp {
                 85..=94 if !non.is_empty() => *r.pick(&non),
                 _ => NOBODY,
             };
-            MOp::RemoveSigner { a, dec: r.chance(50) }
+            MOp::RemoveSigner { a, dec: r.chance(50), key: view.s.accounts.contains_key(&a) && r.chance(35) }
         }
         53..=72 => {
             let a = if r.chance(88) { *r.pick(&ws.signers) } else if !non.is_empty() { *r.pick(&non) } else { NOBODY };
@@ -736,7 +851,7 @@ fn gen_config(r: &mut Prng, view: &View, x: u64) -> MOp {
                 90..=94 => a,
                 _ => NOBODY,
             };
-            MOp::SwapSigner { a, b }
+            MOp::SwapSigner { a, b, akey: view.s.accounts.contains_key(&a) && r.chance(40), bkey: view.s.accounts.contains_key(&b) && r.chance(25) }
         }
         73..=87 => {
             let l = ws.signers.len() as u64;
@@ -886,6 +1001,108 @@ fn gen_top(r: &mut Prng, s: &Snap, table: &HashMap<(u64, Vec<u8>), Pl>, epoch: &
     }
 }
 
+/// profile "big": one wallet with 4-6 signers and threshold 3-5 (often with a vesting lock) on which
+/// payments sit pending and collect several approvals WHILE administrative self-proposals (removal /
+/// swap of early approvers, threshold decreases) are driven to quorum; afterwards cancels by the
+/// various approvers and approvals of transactions that already meet the lowered threshold.
+fn gen_create_big(r: &mut Prng, view: &View) -> Top {
+    let accounts = view.accounts();
+    let from = *r.pick(&accounts);
+    let want = (4 + r.below(3) as usize).min(accounts.len());
+    let mut sg: Vec<u64> = vec![];
+    while sg.len() < want {
+        let a = if r.chance(90) || view.s.wallets.is_empty() { *r.pick(&accounts) } else { *r.pick(&view.wallets()) };
+        if !sg.contains(&a) {
+            sg.push(a);
+        }
+    }
+    let th = (3 + r.below(3)).min(sg.len() as u64);
+    let dur = if r.chance(60) { *r.pick(&[150i64, 400, 1000]) } else { 0 };
+    let start = view.epoch + r.range(-5, 5);
+    Top::Create { e: view.epoch, from, sg, th, dur, start, value: 5000 + r.below(40_000) as i128 }
+}
+
+fn is_admin(table: &HashMap<(u64, Vec<u8>), Pl>, x: u64, t: &TxSnap) -> bool {
+    aid(&t.to) == x
+        && matches!(table.get(&(t.method, t.params.clone())), Some(Pl::Call(o)) if !matches!(**o, MOp::Propose { .. } | MOp::Approve { .. } | MOp::Cancel { .. }))
+}
+
+fn gen_top_big(r: &mut Prng, s: &Snap, table: &HashMap<(u64, Vec<u8>), Pl>, epoch: &mut i64) -> Top {
+    if s.wallets.is_empty() {
+        let view = View { s, epoch: *epoch };
+        return gen_create_big(r, &view);
+    }
+    if r.chance(10) {
+        return gen_top(r, s, table, epoch);
+    }
+    *epoch += *r.pick(&[0i64, 0, 1, 1, 2, 4]);
+    let view = View { s, epoch: *epoch };
+    // the wallet with the most signers
+    let x = *s.wallets.iter().max_by_key(|(_, w)| w.signers.len()).unwrap().0;
+    let ws = &s.wallets[&x];
+    let accounts = view.accounts();
+    let acct_signers: Vec<u64> = ws.signers.iter().cloned().filter(|a| s.accounts.contains_key(a)).collect();
+    if acct_signers.is_empty() {
+        return gen_top(r, s, table, epoch);
+    }
+    let call = |from: u64, o: MOp| Top::Msg { e: view.epoch, from, to: x, value: 0, p: Pl::Call(Box::new(o)) };
+    let th = ws.threshold as usize;
+    let pays: Vec<i64> = ws.pending.iter().filter(|(_, t)| !is_admin(table, x, t)).map(|(i, _)| *i).collect();
+    let admins: Vec<i64> = ws.pending.iter().filter(|(_, t)| is_admin(table, x, t)).map(|(i, _)| *i).collect();
+    // 1. a payment that already meets the (lowered) threshold: any signer's Approve executes it
+    let met: Vec<i64> = pays.iter().cloned().filter(|i| ws.pending[i].approved.len() >= th).collect();
+    if !met.is_empty() && r.chance(65) {
+        let id = *r.pick(&met);
+        return call(*r.pick(&acct_signers), MOp::Approve { id, h: gen_hash(r, ws.pending.get(&id), &view, table) });
+    }
+    // 2. cancels by the various approvers of payments with several approvals
+    let multi: Vec<i64> = pays.iter().cloned().filter(|i| ws.pending[i].approved.len() >= 2).collect();
+    if !multi.is_empty() && r.chance(12) {
+        let id = *r.pick(&multi);
+        let ap = &ws.pending[&id].approved;
+        let who = if r.chance(35) { ap[0] } else { *r.pick(ap) };
+        if s.accounts.contains_key(&who) {
+            return call(who, MOp::Cancel { id, h: if r.chance(70) { Hs::None } else { gen_hash(r, ws.pending.get(&id), &view, table) } });
+        }
+    }
+    // 3. keep two payments pending (for locked wallets mostly above what is available)
+    if pays.len() < 2 && r.chance(75) {
+        let bal = big_to_i128(&ws.balance);
+        let avail = (bal - big_to_i128(&locked(ws, view.epoch))).max(0);
+        let value = if ws.dur > 0 && avail < bal && r.chance(65) { avail + 1 + r.below((bal - avail).max(1) as u64) as i128 } else { gen_value(r, &view, x) };
+        return call(*r.pick(&acct_signers), MOp::Propose { to: *r.pick(&accounts), value, p: Pl::Send });
+    }
+    // 4. an administrative self-proposal aimed at the approvers of the pending payments
+    if admins.is_empty() && r.chance(70) {
+        let approvers: Vec<u64> = pays.iter().flat_map(|i| {
+            let ap = &ws.pending[i].approved;
+            ap[..ap.len().saturating_sub(1)].to_vec()
+        }).collect();
+        let early = if !approvers.is_empty() && r.chance(85) { *r.pick(&approvers) } else { *r.pick(&ws.signers) };
+        let non: Vec<u64> = accounts.iter().cloned().filter(|a| !ws.signers.contains(a)).collect();
+        let maxap = pays.iter().map(|i| ws.pending[i].approved.len()).max().unwrap_or(1).max(1) as u64;
+        let o = match r.below(100) {
+            0..=34 => MOp::RemoveSigner { a: early, dec: ws.signers.len() - 1 < th || r.chance(35), key: s.accounts.contains_key(&early) && r.chance(40) },
+            35..=59 if !non.is_empty() => MOp::SwapSigner { a: early, b: *r.pick(&non), akey: s.accounts.contains_key(&early) && r.chance(50), bkey: r.chance(25) },
+            35..=89 => MOp::ChangeThreshold { n: if r.chance(75) { 1 + r.below(maxap.min(ws.threshold.saturating_sub(1)).max(1)) } else { 1 + r.below(ws.signers.len() as u64) } },
+            _ => gen_config(r, &view, x),
+        };
+        return call(*r.pick(&acct_signers), MOp::Propose { to: x, value: 0, p: Pl::Call(Box::new(o)) });
+    }
+    // 5. collect approvals: drive the admin proposal to quorum, let payments gather approvals below it
+    let id = if !admins.is_empty() && (pays.is_empty() || r.chance(60)) {
+        *r.pick(&admins)
+    } else if !pays.is_empty() {
+        let below: Vec<i64> = pays.iter().cloned().filter(|i| ws.pending[i].approved.len() + 1 < th).collect();
+        if !below.is_empty() && r.chance(80) { *r.pick(&below) } else { *r.pick(&pays) }
+    } else {
+        ws.next_id
+    };
+    let fresh: Vec<u64> = acct_signers.iter().cloned().filter(|a| ws.pending.get(&id).map(|t| !t.approved.contains(a)).unwrap_or(true)).collect();
+    let from = if !fresh.is_empty() && r.chance(90) { *r.pick(&fresh) } else { *r.pick(&acct_signers) };
+    call(from, MOp::Approve { id, h: gen_hash(r, ws.pending.get(&id), &view, table) })
+}
+
 fn top_kind(t: &Top) -> &'static str {
     match t {
         Top::Create { .. } => "create",
@@ -895,7 +1112,7 @@ fn top_kind(t: &Top) -> &'static str {
     }
 }
 
-fn run_case(mc: &MCase, stats: &mut Stats, genr: Option<(&mut Prng, usize)>) -> (Case, MCase, Vec<serde_json::Value>) {
+fn run_case(mc: &MCase, stats: &mut Stats, genr: Option<(&mut Prng, usize, bool)>) -> (Case, MCase, Vec<serde_json::Value>) {
     let mut w = setup(mc.n_accounts);
     let mut snap = snapshot(&w);
     let init = format!(
@@ -909,10 +1126,14 @@ fn run_case(mc: &MCase, stats: &mut Stats, genr: Option<(&mut Prng, usize)>) -> 
     let (mut acc, mut rej) = (false, false);
     let mut epoch = 0i64;
     let mut genr = genr;
-    let total = match &genr { Some((_, l)) => *l, None => mc.ops.len() };
+    let total = match &genr { Some((_, l, _)) => *l, None => mc.ops.len() };
     let mut inv: HashMap<(u64, Vec<u8>), Pl> = HashMap::new();
     for i in 0..total {
-        let op = match &mut genr { Some((r, _)) => gen_top(r, &snap, &inv, &mut epoch), None => mc.ops[i].clone() };
+        let op = match &mut genr {
+            Some((r, _, false)) => gen_top(r, &snap, &inv, &mut epoch),
+            Some((r, _, true)) => gen_top_big(r, &snap, &inv, &mut epoch),
+            None => mc.ops[i].clone(),
+        };
         let e = match &op { Top::Msg { e, .. } | Top::Create { e, .. } => *e };
         // remember the payloads of proposals so that later matching hashes can be built
         collect_payloads(&mut w, &mut inv, &op);
@@ -985,6 +1206,10 @@ fn run_case(mc: &MCase, stats: &mut Stats, genr: Option<(&mut Prng, usize)>) -> 
     bump(stats, "reentrant_sends", w.reentrant, false);
     bump(stats, "wallet_sends", w.executed.len() as u64, false);
     bump(stats, "check_fuel", CHECK_FUEL as u64, true);
+    bump(stats, "purges_of_non_last_approver_of_3plus", w.purges_multi, false);
+    bump(stats, "preapproved_executions", w.preapproved_exec, false);
+    bump(stats, "preapproved_lock_refusals", w.preapproved_refused, false);
+    bump(stats, "signer_removed_by_key_address", w.key_args, false);
     (Case { init, steps, nontrivial: acc && rej }, MCase { n_accounts: mc.n_accounts, ops: ops_done }, fails)
 }
 
@@ -1020,11 +1245,11 @@ fn boundary_case() -> MCase {
         ops: vec![
             Top::Create { e: 0, from: ids[0], sg: ids[..257].to_vec(), th: 1, dur: 0, start: 0, value: 0 },
             Top::Create { e: 0, from: ids[0], sg: ids[..255].to_vec(), th: 1, dur: 0, start: 0, value: 100 },
-            call(ids[0], selfp(MOp::AddSigner { a: ids[255], inc: false })),
-            call(ids[0], selfp(MOp::AddSigner { a: ids[256], inc: false })),
+            call(ids[0], selfp(MOp::AddSigner { a: ids[255], inc: false, key: false })),
+            call(ids[0], selfp(MOp::AddSigner { a: ids[256], inc: false, key: true })),
             call(ids[0], selfp(MOp::ChangeThreshold { n: 257 })),
-            call(ids[0], selfp(MOp::RemoveSigner { a: ids[3], dec: false })),
-            call(ids[0], selfp(MOp::AddSigner { a: ids[256], inc: true })),
+            call(ids[0], selfp(MOp::RemoveSigner { a: ids[3], dec: false, key: true })),
+            call(ids[0], selfp(MOp::AddSigner { a: ids[256], inc: true, key: false })),
             call(ids[0], MOp::Propose { to: ids[259], value: 10, p: Pl::Send }),
             call(ids[1], MOp::Approve { id: 5, h: Hs::None }),
             call(ids[1], selfp(MOp::ChangeThreshold { n: 256 })),
@@ -1073,8 +1298,10 @@ fn main() {
     let mut root = Prng::new(a.seed);
     for k in 0..a.cases {
         let mut r = root.fork(k as u64);
-        let mc = MCase { n_accounts: 4, ops: vec![] };
-        let (c, _, fails) = run_case(&mc, &mut stats, Some((&mut r, a.len)));
+        // every third history uses the "big wallet" profile (7 accounts, longer)
+        let big = k % 3 == 2;
+        let mc = MCase { n_accounts: if big { 7 } else { 4 }, ops: vec![] };
+        let (c, _, fails) = run_case(&mc, &mut stats, Some((&mut r, if big { a.len + 15 } else { a.len }, big)));
         cw.push(c);
         for f in fails { stats.monitor_fail(f); }
     }
